@@ -193,4 +193,28 @@ pub(crate) mod arrays {
             kani::cover!(true);
         }
     }
+
+    harness! {
+        #[kani::unwind(5)]
+        fn q09_query_result_byte_layout() {
+            // result returned to the report collector: concatenation of the element encodings, in order
+            use crate::query::ProtocolResult;
+            let raw: [u32; 3] = kani::any();
+            let k: usize = kani::any();
+            kani::assume(k < 3 && raw[k] < P32);
+            let v: Vec<Fp32BitPrime> = vec![
+                unsafe { std::mem::transmute::<u32, Fp32BitPrime>(raw[0]) },
+                unsafe { std::mem::transmute::<u32, Fp32BitPrime>(raw[1]) },
+                unsafe { std::mem::transmute::<u32, Fp32BitPrime>(raw[2]) },
+            ];
+            let bytes = v.to_bytes();
+            assert!(bytes.len() == 12, "advertised length");
+            let j: usize = kani::any();
+            kani::assume(j < 4);
+            assert!(bytes[4 * k + j] == raw[k].to_le_bytes()[j], "element k (symbolic) at offset 4k");
+            std::mem::forget(bytes);
+            std::mem::forget(v);
+            kani::cover!(true);
+        }
+    }
 }
